@@ -1,5 +1,5 @@
 import SC.Model.Asm
-import SC.Proofs.KernSmall
+import SC.Proofs.KernBlocks
 /-!
 Lemmas about the instruction-level model: PMOVMSKB masks, BSF as a first-set-bit search, the
 page test `TESTW $0xff0`, and the `SHLL`/`SHRL $16` re-alignment of the end-of-page path.
@@ -195,5 +195,132 @@ theorem bsf_shifted (F : Nat → UInt8) (p : UInt8 → Bool) (mem : Mem) (a len 
     simp [this]
   rw [h1, h2, h3]
   cases blk p mem a (16 - len) len <;> rfl
+
+end Asm
+
+namespace Asm
+open Kern
+
+theorem cntBits_eq_cntBlk (p : UInt8 → Bool) (mem : Mem) (a v : Nat) : ∀ (n j : Nat),
+    (∀ i, j ≤ i → i < j + n → v.testBit i = p (mem (a + i))) → cntBits v j n = cntBlk p mem a j n
+  | 0, _, _ => rfl
+  | n+1, j, h => by
+    simp only [cntBits, cntBlk]
+    rw [h j (Nat.le_refl _) (by omega), cntBits_eq_cntBlk p mem a v n (j + 1) (fun i h1 h2 => h i (by omega) (by omega))]
+
+theorem cntBits_zero (v : Nat) : ∀ (n j : Nat), (∀ i, j ≤ i → i < j + n → v.testBit i = false) → cntBits v j n = 0
+  | 0, _, _ => rfl
+  | n+1, j, h => by
+    simp only [cntBits]
+    rw [h j (Nat.le_refl _) (by omega), cntBits_zero v n (j + 1) (fun i h1 h2 => h i (by omega) (by omega))]
+    simp
+
+theorem cntBits_append (v : Nat) : ∀ (n m j : Nat), cntBits v j (n + m) = cntBits v j n + cntBits v (j + n) m
+  | 0, m, j => by simp [cntBits]
+  | n+1, m, j => by
+    have e : n + 1 + m = (n + m) + 1 := by omega
+    rw [e]
+    simp only [cntBits]
+    rw [cntBits_append v n m (j + 1)]
+    have e2 : j + 1 + n = j + (n + 1) := by omega
+    rw [e2]; omega
+
+/-- `PMOVMSKB; ANDQ mask; POPCNTL` with a mask selecting the lanes `lo … lo+n−1` counts the matches among them -/
+theorem popcnt_masked (F : Nat → UInt8) (p : UInt8 → Bool) (mem : Mem) (a m lo n : Nat) (hlo : lo + n ≤ 16)
+    (hm : ∀ i, i < 16 → m.testBit i = (decide (lo ≤ i) && decide (i < lo + n)))
+    (hF : ∀ j, decide (F j ≥ 0x80) = p (mem (a + j))) :
+    cntBits ((mask F 16 &&& m) % W32) 0 32 = cntBlk p mem a lo n := by
+  have hlt : mask F 16 &&& m < 2 ^ 16 := Nat.lt_of_le_of_lt Nat.and_le_left (mask_lt F 16)
+  have hmod : (mask F 16 &&& m) % W32 = mask F 16 &&& m :=
+    Nat.mod_eq_of_lt (Nat.lt_of_lt_of_le hlt (by unfold W32; exact Nat.pow_le_pow_right (by omega) (by omega)))
+  rw [hmod]
+  have hbit : ∀ i, (mask F 16 &&& m).testBit i =
+      (decide (lo ≤ i) && decide (i < lo + n) && p (mem (a + i))) := by
+    intro i
+    rw [Nat.testBit_and, mask_testBit, ← hF i]
+    by_cases h16 : i < 16
+    · rw [hm i h16]; simp [h16, Bool.and_comm]
+    · have : ¬ i < lo + n := by omega
+      simp [h16, this]
+  have e : (32 : Nat) = lo + (n + (32 - lo - n)) := by omega
+  rw [e, cntBits_append, cntBits_append]
+  have z1 : cntBits (mask F 16 &&& m) 0 lo = 0 := by
+    apply cntBits_zero
+    intro i _ hi
+    rw [hbit i]
+    have : ¬ lo ≤ i := by omega
+    simp [this]
+  have z3 : cntBits (mask F 16 &&& m) (0 + lo + n) (32 - lo - n) = 0 := by
+    apply cntBits_zero
+    intro i hi _
+    rw [hbit i]
+    have : ¬ i < lo + n := by omega
+    simp [this]
+  have mid : cntBits (mask F 16 &&& m) (0 + lo) n = cntBlk p mem a lo n := by
+    rw [Nat.zero_add]
+    apply cntBits_eq_cntBlk
+    intro i h1 h2
+    rw [hbit i]
+    simp [h1, h2]
+  rw [z1, z3, mid]; omega
+
+/-- `MOVQ $1, R10; SALQ CL, R10; SUBQ $1, R10` : the lanes below `len` -/
+theorem lowMask_bits (len : Nat) (hl : len < 16) (i : Nat) (_hi : i < 16) :
+    (2 ^ len - 1).testBit i = (decide (0 ≤ i) && decide (i < 0 + len)) := by
+  rw [Nat.testBit_two_pow_sub_one]; simp
+
+/-- `MOVQ $0xFFFF, R10; SARQ CL, R10; SALQ CL, R10` with `CL = 16 − len` : the top `len` lanes -/
+theorem highMask_bits (c : Nat) (hc : c ≤ 16) (i : Nat) (hi : i < 16) :
+    ((65535 >>> c) <<< c).testBit i = (decide (c ≤ i) && decide (i < c + (16 - c))) := by
+  rw [Nat.testBit_shiftLeft, Nat.testBit_shiftRight]
+  have e : (65535 : Nat) = 2 ^ 16 - 1 := rfl
+  rw [e, Nat.testBit_two_pow_sub_one]
+  by_cases h : c ≤ i
+  · have h1 : c + (i - c) < 16 := by omega
+    have h2 : i < c + (16 - c) := by omega
+    simp [h, h2]; omega
+  · simp [h]
+
+end Asm
+
+namespace Asm
+
+theorem cntBits_le (v : Nat) : ∀ (n j : Nat), cntBits v j n ≤ n
+  | 0, _ => Nat.le_refl _
+  | n+1, j => by
+    simp only [cntBits]
+    have := cntBits_le v n (j + 1)
+    split <;> omega
+
+/-- the low mask as the instruction sequence computes it (whatever was in the upper bits of `CX`) -/
+theorem lowMask_val (jcx len : Nat) (hl : len < 16) :
+    ((1 % W64) <<< ((jcx / 256 * 256 + len % 256) % 64) % W64 + W64 - 1 % W64) % W64 = 2 ^ len - 1 := by
+  have e1 : (jcx / 256 * 256 + len % 256) % 64 = len := by omega
+  have e2 : (1 : Nat) % W64 = 1 := by decide
+  rw [e1, e2, Nat.one_shiftLeft]
+  have hp : 2 ^ len < 2 ^ 16 := Nat.pow_lt_pow_right (by omega) hl
+  have hp1 : 1 ≤ 2 ^ len := Nat.one_le_two_pow
+  have hw : W64 = 2 ^ 64 := rfl
+  have e3 : 2 ^ len % W64 = 2 ^ len := Nat.mod_eq_of_lt (by rw [hw]; omega)
+  rw [e3]
+  have e4 : 2 ^ len + W64 - 1 = (2 ^ len - 1) + W64 := by omega
+  rw [e4, Nat.add_mod_right]
+  exact Nat.mod_eq_of_lt (by rw [hw]; omega)
+
+/-- the high mask as the instruction sequence computes it -/
+theorem highMask_val (len : Nat) (hl : len < 16) (h0 : 0 < len) :
+    (if 65535 % W64 < 2 ^ 63 then (65535 % W64) >>> ((16 % W64 + W64 - len % W64) % W64 % 64)
+      else W64 - 1 - (W64 - 1 - 65535 % W64) >>> ((16 % W64 + W64 - len % W64) % W64 % 64)) <<<
+        ((16 % W64 + W64 - len % W64) % W64 % 64) % W64 = (65535 >>> (16 - len)) <<< (16 - len) := by
+  have hw : W64 = 2 ^ 64 := rfl
+  have e1 : (16 % W64 + W64 - len % W64) % W64 % 64 = 16 - len := by rw [hw]; omega
+  have e2 : (65535 : Nat) % W64 = 65535 := by decide
+  rw [e1, e2, if_pos (by omega)]
+  apply Nat.mod_eq_of_lt
+  have h1 : 65535 >>> (16 - len) ≤ 65535 := Nat.shiftRight_le _ _
+  rw [Nat.shiftLeft_eq]
+  have h2 : 2 ^ (16 - len) ≤ 2 ^ 16 := Nat.pow_le_pow_right (by omega) (by omega)
+  calc 65535 >>> (16 - len) * 2 ^ (16 - len) ≤ 65535 * 2 ^ 16 := Nat.mul_le_mul h1 h2
+    _ < W64 := by rw [hw]; omega
 
 end Asm
